@@ -1,384 +1,328 @@
-"""facts_C03.py -- structural facts of grpclib/server.py for property C03 -> coq/Gen/FactsC03.v.
+"""facts_C03.py -- facts about grpclib's server call path for property C03 -> coq/Gen/FactsC03.v.
 
-`ast` only (grpclib is never imported); fail-closed: any statement shape that is not recognised
-raises Unsupported, which removes Gen/FactsC03.v so that exactly C03 stops compiling.
+BY MEANING, not by spelling: nothing here reads the syntax of server.py.  The facts are DECISION TABLES obtained
+by running the real code of the repository under translation (a real `Server` protocol instance on the in-memory
+transport with the scripted h2 client of the harness, virtual time) on a fixed, finite set of probe requests and
+probe handlers, and reading the answers off the wire:
 
-Extracted:
-  * request_handler: the validation prefix as an ORDERED list of (guard, h2 status, grpc status,
-    grpc message) -- Model/ServerCall.v interprets this list, so order, guards, status codes and
-    message texts of the early aborts come from the source;
-  * _abort: the header names it emits and "RST when closable" (shape check);
-  * Stream.__aexit__: the guard of the GRPCError branch, the status/message chosen for Exception, for the unary-reply check and for the
-    normal exit, and that other BaseExceptions are propagated;
-  * the `except asyncio.TimeoutError` clause of request_handler: the status raised;
-  * the precondition checks (`if ...: raise ProtocolError`) of the four sending calls, in order, as
-    source text (Proofs/C03Proofs.v compares them with what the model implements);
-  * the header literals of send_initial_metadata / send_trailing_metadata, the reset condition;
-  * GRPC_CONTENT_TYPE and ProtoCodec.__content_subtype__.
+  * abort_table -- the early refusals of a request: for each of the seven defects a request can have (method,
+    content-type missing / unacceptable, te, unknown path, invalid grpc-timeout, malformed metadata) the
+    (:status, grpc-status, grpc-message) the server answers with, ORDERED by which defect wins when two are
+    present (every combinable pair is probed).  Each defect is probed in several spellings, each must be refused
+    identically with the handler not called, exactly one HEADERS+END_STREAM (+ RST_STREAM while the client side
+    is open); accepted spellings must be accepted.  Model/ServerCall.v interprets this table.
+  * the (status, message) sent at exit for an Exception, for a unary reply without its message, for a normal
+    return; that a GRPCError's own (status, message) is passed through; whether GRPCError(OK) on a unary reply
+    without a message is handled as an exception; that a BaseException is propagated without a frame (D4);
+  * the status sent when the deadline fires (cancellation honoured / swallowed);
+  * content-type constants and Status.OK by value.
+
+Fail-closed: a probe that is answered in a way the model has no place for (two spellings of one defect answered
+differently, an inconsistent precedence, a handler called for a refused request, ...) raises Unsupported, which
+removes Gen/FactsC03.v so that exactly C03 stops compiling.  Refactorings that do not change what the server
+puts on the wire leave this file byte-identical.
 """
-import ast
-import re
+import os
+import sys
 
-from extract_facts import Unsupported, parse, zs, func_node, class_node, enum_members
+from extract_facts import Unsupported, zs
 
+HERE = os.path.dirname(os.path.abspath(__file__))
+VERIF = os.path.dirname(HERE)
 
-def u(node):
-    return ast.unparse(node)
-
-
-def status_values(repo):
-    tree = parse(repo, 'grpclib/const.py')
-    out = {}
-    for name, val in enum_members(tree, 'Status'):
-        if not (isinstance(val, ast.Constant) and isinstance(val.value, int)):
-            raise Unsupported('Status member ' + name)
-        out[name] = val.value
-    return out
+KNOWN_PATH = '/v.S/M'
+BASE = [(':method', 'POST'), (':scheme', 'http'), (':path', KNOWN_PATH), (':authority', 'x'),
+        ('te', 'trailers'), ('content-type', 'application/grpc')]
+FAR = ('grpc-timeout', '100S')
 
 
-def strip_doc(body):
-    return [s for s in body if not (isinstance(s, ast.Expr) and isinstance(s.value, ast.Constant)
-                                    and isinstance(s.value.value, str))]
+def without(name, hs=None):
+    return [h for h in (hs or BASE) if h[0] != name]
 
 
-def const_str(node):
-    if isinstance(node, ast.Constant) and isinstance(node.value, str):
-        return node.value
-    raise Unsupported('string literal expected: ' + u(node))
+def replaced(name, value, hs=None):
+    return [(h[0], value) if h[0] == name else h for h in (hs or BASE)]
 
 
-def abort_call(stmts, status):
-    """[await _abort(_stream, H, [Status.X, 'msg']); return] -> (H, grpc status | None, msg | None)"""
-    if not (len(stmts) == 2 and isinstance(stmts[1], ast.Return) and stmts[1].value is None
-            and isinstance(stmts[0], ast.Expr) and isinstance(stmts[0].value, ast.Await)):
-        raise Unsupported('abort branch: ' + '; '.join(u(s) for s in stmts))
-    c = stmts[0].value.value
-    if not (isinstance(c, ast.Call) and u(c.func) == '_abort' and not c.keywords
-            and 2 <= len(c.args) <= 4 and u(c.args[0]) == '_stream'):
-        raise Unsupported('abort call: ' + u(c))
-    h = c.args[1]
-    if not (isinstance(h, ast.Constant) and isinstance(h.value, int)):
-        raise Unsupported('abort h2 status: ' + u(h))
-    gs = None
-    if len(c.args) >= 3:
-        s = u(c.args[2])
-        if not (s.startswith('Status.') and s[7:] in status):
-            raise Unsupported('abort grpc status: ' + s)
-        gs = status[s[7:]]
-    msg = const_str(c.args[3]) if len(c.args) == 4 else None
-    return h.value, gs, msg
+def added(name, value, hs=None):
+    return list(hs or BASE) + [(name, value)]
 
 
-def request_prefix(fn, status):
-    body = strip_doc(fn.body)
-    if not (len(body) == 1 and isinstance(body[0], ast.Try)):
-        raise Unsupported('request_handler: outer try expected')
-    outer = body[0]
-    seen = set()
-    entries = []
-    KNOWN_ASSIGN = {
-        "headers_map = dict(headers)": 'map',
-        "content_type = headers_map.get('content-type')": 'ct',
-        "base_content_type, _, sub_type = content_type.partition('+')": 'part',
-        "sub_type = sub_type or ProtoCodec.__content_subtype__": 'subdef',
-        "method_name = headers_map.get(':path')": 'path',
-        "method = mapping.get(method_name)": 'method',
-        "user_agent = headers_map.get('user-agent')": 'ua',
-    }
-    ended = False
-    for s in outer.body:
-        src = u(s)
-        if isinstance(s, ast.Assign):
-            if src not in KNOWN_ASSIGN:
-                raise Unsupported('request_handler assignment: ' + src)
-            seen.add(KNOWN_ASSIGN[src])
-        elif isinstance(s, ast.If):
-            if s.orelse:
-                raise Unsupported('request_handler: if with else: ' + src[:80])
-            t = s.test
-            ab = abort_call(s.body, status)
-            if (isinstance(t, ast.Compare) and len(t.ops) == 1 and isinstance(t.ops[0], ast.NotEq)
-                    and isinstance(t.left, ast.Call) and u(t.left.func) == 'headers_map.get'
-                    and len(t.left.args) == 1 and not t.left.keywords and 'map' in seen):
-                g = 'GetNe %s %s' % (zs(const_str(t.left.args[0])), zs(const_str(t.comparators[0])))
-            elif u(t) == 'content_type is None' and 'ct' in seen:
-                g = 'IsNone %s' % zs('content-type')
-            elif (u(t) == 'base_content_type != GRPC_CONTENT_TYPE or sub_type != codec.__content_subtype__'
-                  and {'ct', 'part', 'subdef'} <= seen):
-                g = 'CtMismatch'
-            elif u(t) == 'method is None' and {'path', 'method'} <= seen:
-                g = 'UnknownPath'
-            else:
-                raise Unsupported('request_handler guard: ' + u(t))
-            entries.append((g, ab))
-        elif isinstance(s, ast.Try):
-            if not (len(s.body) == 1 and isinstance(s.body[0], ast.Assign) and len(s.handlers) == 1
-                    and not s.orelse and not s.finalbody and u(s.handlers[0].type) == 'ValueError'):
-                raise Unsupported('request_handler try: ' + src[:80])
-            call = s.body[0].value
-            if not (isinstance(call, ast.Call) and u(call.args[0]) == 'headers' and len(call.args) == 1):
-                raise Unsupported('request_handler try call: ' + u(call))
-            f = u(call.func)
-            if f not in ('Deadline.from_headers', 'decode_metadata'):
-                raise Unsupported('request_handler try callee: ' + f)
-            entries.append(('TryValueError %s' % zs(f), abort_call(s.handlers[0].body, status)))
-        elif isinstance(s, ast.AsyncWith):
-            if not u(s.items[0].context_expr).startswith('Stream(_stream, method_name, method.cardinality'):
-                raise Unsupported('request_handler: async with ' + u(s.items[0].context_expr)[:60])
-            ended = True
-            inner = s
-            break
-        else:
-            raise Unsupported('request_handler statement: ' + src[:80])
-    if not ended:
-        raise Unsupported('request_handler: async with Stream(...) not found')
-    # outer handlers: ProtocolError and Exception are logged, nothing else; finally releases
-    hs = [u(h.type) for h in outer.handlers]
-    if hs != ['ProtocolError', 'Exception'] or [u(x) for x in outer.finalbody] != ['release_stream()']:
-        raise Unsupported('request_handler outer handlers: %r' % hs)
-    for h in outer.handlers:
-        if not (len(h.body) == 1 and u(h.body[0]).startswith('log.exception(')):
-            raise Unsupported('request_handler outer handler body')
-    # the inner try around the handler call
-    tr = [x for x in inner.body if isinstance(x, ast.Try)]
-    if len(tr) != 1:
-        raise Unsupported('request_handler: inner try')
-    tr = tr[0]
-    if not (len(tr.body) == 1 and isinstance(tr.body[0], ast.With)
-            and [u(i.context_expr) for i in tr.body[0].items] == ['deadline_wrapper', 'wrapper']):
-        raise Unsupported('request_handler: with deadline_wrapper, wrapper')
-    kinds = [u(h.type) for h in tr.handlers]
-    if kinds != ['GRPCError', 'asyncio.TimeoutError', 'StreamTerminatedError', 'Exception']:
-        raise Unsupported('request_handler inner handlers: %r' % kinds)
-
-    def raised_status(stmts):
-        r = stmts[-1]
-        if not isinstance(r, ast.Raise):
-            raise Unsupported('raise expected')
-        if r.exc is None:
-            return None
-        s_ = u(r.exc)
-        if not (s_.startswith('GRPCError(Status.') and s_.endswith(')') and s_[17:-1] in status):
-            raise Unsupported('TimeoutError clause raises ' + s_)
-        return status[s_[17:-1]]
-    th = tr.handlers[1].body
-    if not (len(th) == 1 and isinstance(th[0], ast.If) and u(th[0].test) == 'wrapper.cancel_failed'
-            and len(th[0].orelse) == 1 and isinstance(th[0].orelse[0], ast.If)
-            and u(th[0].orelse[0].test) == 'wrapper.cancelled'):
-        raise Unsupported('TimeoutError clause shape')
-    dl_failed = raised_status(th[0].body)
-    dl_cancelled = raised_status(th[0].orelse[0].body)
-    dl_other = raised_status(th[0].orelse[0].orelse)
-    if dl_failed is None or dl_cancelled is None or dl_other is not None:
-        raise Unsupported('TimeoutError clause statuses')
-    for h in (tr.handlers[0], tr.handlers[2], tr.handlers[3]):
-        last = h.body[-1] if not isinstance(h.body[-1], ast.If) else None
-        if last is not None and not (isinstance(last, ast.Raise) and last.exc is None):
-            raise Unsupported('inner handler must re-raise')
-    return entries, dl_failed, dl_cancelled
+# defect -> (guard term of Model/ServerCall.v, [header-list mutations that have the defect])
+DEFECTS = [
+    ('method', 'GetNe %s %s' % (zs(':method'), zs('POST')),
+     [lambda h: without(':method', h), lambda h: replaced(':method', 'GET', h),
+      lambda h: replaced(':method', 'post', h), lambda h: replaced(':method', '', h),
+      lambda h: added(':method', 'PUT', h)]),
+    ('no-content-type', 'IsNone %s' % zs('content-type'), [lambda h: without('content-type', h)]),
+    ('content-type', 'CtMismatch',
+     [lambda h: replaced('content-type', 'application/grpc+json', h),
+      lambda h: replaced('content-type', 'application/json', h),
+      lambda h: replaced('content-type', 'Application/grpc', h),
+      lambda h: replaced('content-type', '', h),
+      lambda h: replaced('content-type', 'application/grpc+proto+x', h)]),
+    ('te', 'GetNe %s %s' % (zs('te'), zs('trailers')),
+     [lambda h: without('te', h), lambda h: replaced('te', 'Trailers', h), lambda h: replaced('te', 'gzip', h),
+      lambda h: replaced('te', '', h)]),
+    ('path', 'UnknownPath',
+     [lambda h: without(':path', h), lambda h: replaced(':path', '/v.S/Nope', h), lambda h: replaced(':path', '', h)]),
+    ('timeout', 'TryValueError %s' % zs('Deadline.from_headers'),
+     [lambda h: added('grpc-timeout', '5x', h), lambda h: added('grpc-timeout', '', h),
+      lambda h: added('grpc-timeout', '123456789S', h), lambda h: added('grpc-timeout', '1.5S', h),
+      lambda h: added('grpc-timeout', 'x', added('grpc-timeout', '100S', h))]),
+    ('metadata', 'TryValueError %s' % zs('decode_metadata'),
+     [lambda h: added('x-bin', 'A', h), lambda h: added('k.l_m-bin', 'AAAAA', h)]),
+]
+ACCEPTED = [
+    BASE, replaced('content-type', 'application/grpc+proto'), replaced('content-type', 'application/grpc+'),
+    [(':method', 'PUT')] + BASE, added('grpc-timeout', '100S'), added('x-bin', 'QQ'), added('x-key', 'text ~'),
+    added('grpc-foo-bin', 'A'),
+]
+EXCLUSIVE = {frozenset(('no-content-type', 'content-type'))}
 
 
-def abort_shape(fn):
-    body = [u(s) for s in strip_doc(fn.body)]
-    expect = [
-        "headers = [(':status', str(h2_status))]",
-        "if grpc_status is not None:\n    headers.append(('grpc-status', str(grpc_status.value)))",
-        "if grpc_message is not None:\n    headers.append(('grpc-message', grpc_message))",
-        "await h2_stream.send_headers(headers, end_stream=True)",
-        "if h2_stream.closable:\n    h2_stream.reset_nowait()",
-    ]
-    if body != expect:
-        raise Unsupported('_abort body changed:\n' + '\n'.join(body))
-    return [':status', 'grpc-status', 'grpc-message']
+class Probe:
+    def __init__(self, repo):
+        for p in (repo, VERIF):
+            if p in sys.path:
+                sys.path.remove(p)
+        sys.path.insert(0, VERIF)
+        sys.path.insert(0, repo)
+        import grpclib
+        if not os.path.abspath(grpclib.__file__).startswith(os.path.abspath(repo) + os.sep):
+            raise Unsupported('grpclib imported from %s, not from %s' % (grpclib.__file__, repo))
+        from harness import c03_impl
+        self.impl = c03_impl
+        self.n = 0
+
+    def run(self, headers, ops=('M',), fin=('ret',), card='UU', eof=True, **kw):
+        case = {'headers': [list(h) for h in headers], 'card': card,
+                'body': {'msgs': 1, 'partial': False, 'eof': eof}, 'ops': [o if isinstance(o, str) else list(o) for o in ops],
+                'fin': list(fin), 'policy': kw.get('policy', 'honour'), 'fin2': list(kw.get('fin2', ('ret',))),
+                'ext': 'none', 'ext_at': None}
+        self.n += 1
+        obs = self.impl.run_case(case)
+        if obs.get('violations'):
+            raise Unsupported('probe broke HTTP/2 rules: %r' % (obs['violations'],))
+        return obs
 
 
-def aexit_facts(fn, status):
-    body = strip_doc(fn.body)
-    if not (isinstance(body[0], ast.If) and
-            u(body[0].test) == 'self._send_trailing_metadata_done or self._cancel_done or self._stream._transport.is_closing()'
-            and [u(x) for x in body[0].body] == ['return True']):
-        raise Unsupported('__aexit__ early exit')
-    if u(body[1]) != 'protocol_error = None' or not isinstance(body[2], ast.If):
-        raise Unsupported('__aexit__ second/third statement')
-    top = body[2]
-    if u(top.test) != 'exc_val is not None':
-        raise Unsupported('__aexit__ test ' + u(top.test))
-    inner = [s for s in top.body if isinstance(s, ast.If)]
-    # the GRPCError branch is taken unless the error says OK on a unary reply without its message; such an
-    # error falls through to the Exception branch (repaired defect D42)
-    if len(inner) != 1 or u(inner[0].test) != (
-            'isinstance(exc_val, GRPCError) and (not (exc_val.status is Status.OK and '
-            '(not self._cardinality.server_streaming) and (not self._send_message_done)))'):
-        raise Unsupported('__aexit__ GRPCError branch: ' + (u(inner[0].test) if inner else '-'))
-    g = {u(s.targets[0]): u(s.value) for s in inner[0].body if isinstance(s, ast.Assign)}
-    if g != {'status': 'exc_val.status', 'status_message': 'exc_val.message', 'status_details': 'exc_val.details'}:
-        raise Unsupported('__aexit__ GRPCError assignments %r' % g)
-    e = inner[0].orelse
-    if not (len(e) == 1 and isinstance(e[0], ast.If) and u(e[0].test) == 'isinstance(exc_val, Exception)'):
-        raise Unsupported('__aexit__ Exception branch')
-
-    def st_msg(stmts):
-        a = {u(s.targets[0]): s.value for s in stmts if isinstance(s, ast.Assign)}
-        s_ = u(a['status'])
-        if not (s_.startswith('Status.') and s_[7:] in status):
-            raise Unsupported('__aexit__ status ' + s_)
-        m = a['status_message']
-        msg = None if (isinstance(m, ast.Constant) and m.value is None) else const_str(m)
-        if u(a['status_details']) != 'None':
-            raise Unsupported('__aexit__ details')
-        return status[s_[7:]], msg
-    exc = st_msg(e[0].body)
-    prop = [x for x in e[0].orelse if not isinstance(x, ast.Expr)]
-    if [u(x) for x in prop] != ['return None']:
-        raise Unsupported('__aexit__ BaseException branch: %r' % [u(x) for x in prop])
-    if not (len(top.orelse) == 1 and isinstance(top.orelse[0], ast.If) and
-            u(top.orelse[0].test) == 'not self._cardinality.server_streaming and (not self._send_message_done)'):
-        raise Unsupported('__aexit__ unary check: ' + (u(top.orelse[0].test) if top.orelse else '-'))
-    unary = st_msg(top.orelse[0].body)
-    ok = st_msg(top.orelse[0].orelse)
-    t = body[3]
-    if not (isinstance(t, ast.Try) and len(t.body) == 1 and
-            u(t.body[0]).startswith('await self.send_trailing_metadata(status=status, status_message=status_message')
-            and [u(h.type) for h in t.handlers] == ['h2.exceptions.StreamClosedError']
-            and [u(x) for x in t.handlers[0].body] == ['pass']):
-        raise Unsupported('__aexit__ send_trailing_metadata try')
-    rest = [u(x) for x in body[4:]]
-    if rest != ["if protocol_error is not None:\n    raise ProtocolError(protocol_error)", 'return True']:
-        raise Unsupported('__aexit__ tail %r' % rest)
-    return exc, unary, ok
+def header_dict(frame):
+    return dict((k, v) for k, v in frame[1])
 
 
-def api_checks(cls):
-    """for the four sending calls: the source text of every `if c: raise ProtocolError(..)` (nested ifs are
-    joined with ' && '), in order, plus other facts of their bodies"""
-    out = []
+def refusal(obs, eof, what):
+    """a refused request: exactly one HEADERS+END_STREAM (+ RST_STREAM while the client side is open), the
+    handler not called -> ((:status, grpc-status|None, grpc-message|None), header names)"""
+    fr = obs['frames']
+    shape = [f[0] for f in fr]
+    if obs['end'] != 'not-run':
+        raise Unsupported('%s: the handler was called (%r)' % (what, obs['end']))
+    if shape != (['H'] if eof else ['H', 'R']) or not fr[0][2]:
+        raise Unsupported('%s: refusal is not HEADERS+END_STREAM%s: %r' % (what, '' if eof else ' RST_STREAM', fr))
+    d = header_dict(fr[0])
+    names = [k for k, _ in fr[0][1]]
+    if ':status' not in d or not d[':status'].isdigit() or set(names) - {':status', 'grpc-status', 'grpc-message'}:
+        raise Unsupported('%s: unexpected refusal headers %r' % (what, fr[0][1]))
+    gs = d.get('grpc-status')
+    if gs is not None and not gs.isdigit():
+        raise Unsupported('%s: grpc-status %r' % (what, gs))
+    return (int(d[':status']), None if gs is None else int(gs), d.get('grpc-message')), names
 
-    def walk(stmts, ctx, acc):
-        for s in stmts:
-            if isinstance(s, ast.If):
-                if (len(s.body) == 1 and isinstance(s.body[0], ast.Raise) and
-                        u(s.body[0].exc).startswith('ProtocolError(')):
-                    acc.append(' && '.join(ctx + [u(s.test)]))
+
+def final_status(obs, what, want_terminal=True):
+    """(grpc-status, grpc-message) of the terminal HEADERS of a call whose handler ran, None if there is none"""
+    from urllib.parse import unquote
+    for f in obs['frames']:
+        if f[0] in ('H', 'T'):
+            d = header_dict(f)
+            if 'grpc-status' in d:
+                if not f[2] or not d['grpc-status'].isdigit():
+                    raise Unsupported('%s: malformed terminal %r' % (what, f))
+                m = d.get('grpc-message')
+                return int(d['grpc-status']), None if m is None else unquote(m)
+    if want_terminal:
+        raise Unsupported('%s: no grpc-status on the wire: %r' % (what, obs['frames']))
+    return None
+
+
+def abort_facts(pr):
+    triple = {}
+    names_seen = []
+    for name, guard, muts in DEFECTS:
+        for i, mut in enumerate(muts):
+            for eof in (True, False):
+                t, names = refusal(pr.run(mut(BASE), eof=eof), eof, 'defect %s #%d' % (name, i))
+                names_seen.append(names)
+                if triple.setdefault(name, t) != t:
+                    raise Unsupported('defect %s answered %r and %r' % (name, triple[name], t))
+    for hs in ACCEPTED:
+        obs = pr.run(hs)
+        if obs['end'] != 'ret':
+            raise Unsupported('acceptable request refused: %r -> %r' % (hs[-2:], obs['frames']))
+    # precedence: every combinable pair of defects
+    wins = {n: 0 for n, _, _ in DEFECTS}
+    beats = {}
+    for i, (a, _, ma) in enumerate(DEFECTS):
+        for b, _, mb in DEFECTS[i + 1:]:
+            if frozenset((a, b)) in EXCLUSIVE or triple[a] == triple[b]:
+                continue
+            for hs in (mb[0](ma[0](BASE)), ma[-1](mb[-1](BASE))):
+                t, _ = refusal(pr.run(hs), True, 'defects %s+%s' % (a, b))
+                if t == triple[a]:
+                    w, l = a, b
+                elif t == triple[b]:
+                    w, l = b, a
                 else:
-                    walk(s.body, ctx + [u(s.test)], acc)
-                    walk(s.orelse, ctx + ['not (' + u(s.test) + ')'], acc)
-    for name in ('send_initial_metadata', 'send_message', 'send_trailing_metadata', 'cancel'):
-        fn = func_node_in(cls, name)
-        acc = []
-        walk(strip_doc(fn.body), [], acc)
-        out.append((name, acc))
-    return out
+                    raise Unsupported('defects %s+%s answered %r' % (a, b, t))
+                if beats.setdefault(frozenset((a, b)), w) != w:
+                    raise Unsupported('precedence of %s and %s depends on the spelling' % (a, b))
+            wins[beats[frozenset((a, b))]] += 1
+    canon = {n: i for i, (n, _, _) in enumerate(DEFECTS)}
+    order = sorted(canon, key=lambda n: (-wins[n], canon[n]))
+    pos = {n: i for i, n in enumerate(order)}
+    for pair, w in beats.items():
+        (l,) = pair - {w}
+        if pos[w] > pos[l]:
+            raise Unsupported('precedence of the refusals is not a total order: %r' % (sorted(beats.items(), key=str),))
+    # mutually exclusive defects keep their canonical relative order (it can not be observed)
+    longest = max(names_seen, key=len)
+    if any(n != longest[:len(n)] for n in names_seen):
+        raise Unsupported('refusal header order varies: %r' % (names_seen,))
+    guards = {n: g for n, g, _ in DEFECTS}
+    return [(guards[n],) + triple[n] for n in order], longest
 
 
-def func_node_in(cls, name):
-    for n in cls.body:
-        if isinstance(n, (ast.FunctionDef, ast.AsyncFunctionDef)) and n.name == name:
-            return n
-    raise Unsupported('method ' + name)
+def exit_facts(pr):
+    f = {}
 
-
-def literal_headers(fn, which):
-    """names in the `headers = [...]` list literals of a function, in source order"""
-    out = []
-    for n in ast.walk(fn):
-        if isinstance(n, ast.Assign) and u(n.targets[0]) == 'headers' and isinstance(n.value, ast.List):
-            out.append([(const_str(e.elts[0]), u(e.elts[1])) for e in n.value.elts])
-        elif isinstance(n, ast.AnnAssign) and u(n.target) == 'headers' and isinstance(n.value, ast.List):
-            out.append([(const_str(e.elts[0]), u(e.elts[1])) for e in n.value.elts])
-    return out
+    def same(key, val, what):
+        if f.setdefault(key, val) != val:
+            raise Unsupported('%s: %r vs %r' % (what, f[key], val))
+    # any Exception that is not a GRPCError
+    for card, ops in (('UU', ('M',)), ('SS', ()), ('US', ('M', 'M')), ('SU', ())):
+        for kind in ('exc', 'timeout', 'streamterm', 'protocol'):
+            fin = ('exc',) if kind == 'exc' else ('exc', kind)
+            same('exception', final_status(pr.run(BASE, ops, fin, card), 'raise ' + kind), 'status for an exception')
+        same('exception', final_status(pr.run(added(*FAR), ops, ('exc', 'timeout'), card), 'own timeout'),
+             'the handler\'s own TimeoutError under a live deadline')
+    # normal return
+    for card, ops in (('UU', ('M',)), ('SS', ()), ('US', ('M', 'M')), ('SU', ('R', 'M'))):
+        same('normal', final_status(pr.run(BASE, ops, ('ret',), card), 'return'), 'status for a normal return')
+    for card in ('UU', 'SU'):
+        same('unary', final_status(pr.run(BASE, ('R',), ('ret',), card), 'return without message'),
+             'status for a unary reply without its message')
+    # GRPCError: its own status and message
+    for st, msg, card, ops in ((5, 'nf', 'UU', ('M',)), (0, None, 'UU', ('M',)), (0, 'ok', 'SS', ()),
+                               (16, '', 'US', ()), (13, 'a%2Fb', 'SU', ())):
+        got = final_status(pr.run(BASE, ops, ('grpc', st, msg), card), 'raise GRPCError')
+        if got != (st, msg):
+            raise Unsupported('GRPCError(%r, %r) answered %r' % (st, msg, got))
+    # GRPCError(OK) on a unary reply without a message
+    got = {final_status(pr.run(BASE, (), ('grpc', 0, m), card), 'GRPCError(OK) without message', False)
+           for card in ('UU', 'SU') for m in (None, 'x')}
+    if got == {f['exception']}:
+        f['grpc_ok_unary_as_exception'] = True
+    elif got == {None}:
+        f['grpc_ok_unary_as_exception'] = False
+    else:
+        raise Unsupported('GRPCError(OK) on a unary reply without a message answered %r' % (got,))
+    # a BaseException that is not an Exception
+    got = {final_status(pr.run(BASE, ops, ('base',), card), 'raise BaseException', False)
+           for card, ops in (('UU', ('M',)), ('SS', ()))}
+    if got == {None}:
+        f['base_propagates'] = True
+    elif len(got) == 1:
+        f['base_propagates'] = False
+        f['base_status'] = got.pop()
+    else:
+        raise Unsupported('BaseException answered %r' % (got,))
+    # the deadline fires while the handler waits: honoured / swallowed then anything
+    for card in ('UU', 'SS'):
+        st = final_status(pr.run(added(*FAR), ('M',), ('wait',), card), 'deadline honoured')
+        same('deadline_cancelled', st, 'deadline honoured')
+        for fin2 in (('ret',), ('exc',), ('base',), ('grpc', 5, 'x'), ('exc', 'timeout')):
+            st = final_status(pr.run(added(*FAR), ('M',), ('wait',), card, policy='swallow', fin2=fin2),
+                              'deadline swallowed')
+            same('deadline_failed', st, 'deadline swallowed')
+    # ... and a deadline that has expired on arrival: like the honoured one, handler not called
+    for t in ('0n', '0S', '00000000H'):
+        obs = pr.run(added('grpc-timeout', t))
+        if obs['end'] != 'not-run' or final_status(obs, 'expired') != f['deadline_cancelled']:
+            raise Unsupported('deadline expired on arrival (%s) answered %r' % (t, obs['frames']))
+    for k in ('deadline_cancelled', 'deadline_failed'):
+        if f[k][1] is not None:
+            raise Unsupported('DEADLINE status carries a message: %r' % (f[k],))
+    if f['normal'][1] is not None:
+        raise Unsupported('normal status carries a message: %r' % (f['normal'],))
+    return f
 
 
 def generate(repo):
-    status = status_values(repo)
-    tree = parse(repo, 'grpclib/server.py')
-    entries, dl_failed, dl_cancelled = request_prefix(func_node(tree, 'request_handler'), status)
-    abort_names = abort_shape(func_node(tree, '_abort'))
-    cls = class_node(tree, 'Stream')
-    exc, unary, ok = aexit_facts(func_node_in(cls, '__aexit__'), status)
-    checks = api_checks(cls)
-    # header literals
-    sim = literal_headers(func_node_in(cls, 'send_initial_metadata'), 'initial')
-    stm = literal_headers(func_node_in(cls, 'send_trailing_metadata'), 'trailing')
-    resp = [(':status', "'200'"), ('content-type', 'self._content_type')]
-    if sim != [resp]:
-        raise Unsupported('send_initial_metadata headers literal %r' % sim)
-    if stm != [[], resp]:
-        raise Unsupported('send_trailing_metadata headers literals %r' % stm)
-    fn = func_node_in(cls, 'send_trailing_metadata')
-    src = [u(s) for s in strip_doc(fn.body)]
-    if src[-1] != 'if status != Status.OK and self._stream.closable:\n    self._stream.reset_nowait()':
-        raise Unsupported('send_trailing_metadata reset clause: ' + src[-1])
-    if src[-3:-1] != ['await self._stream.send_headers(headers, end_stream=True)',
-                      'self._send_trailing_metadata_done = True']:
-        raise Unsupported('send_trailing_metadata tail: %r' % src[-3:-1])
-    appends = [u(n.args[0]) for n in ast.walk(fn)
-               if isinstance(n, ast.Call) and u(n.func) == 'headers.append']
-    if appends[0] != "('grpc-status', str(status.value))" or not appends[1].startswith("('grpc-message', encode_grpc_message("):
-        raise Unsupported('send_trailing_metadata appends %r' % appends)
-    ctp = func_node_in(cls, '_content_type')
-    if u(strip_doc(ctp.body)[0]) != "return GRPC_CONTENT_TYPE + '+' + self._codec.__content_subtype__":
-        raise Unsupported('_content_type')
-    base = parse(repo, 'grpclib/encoding/base.py')
-    gct = [const_str(n.value) for n in base.body if isinstance(n, ast.Assign) and u(n.targets[0]) == 'GRPC_CONTENT_TYPE']
-    proto = parse(repo, 'grpclib/encoding/proto.py')
-    sub = [const_str(s.value) for s in class_node(proto, 'ProtoCodec').body
-           if isinstance(s, ast.Assign) and u(s.targets[0]) == '__content_subtype__']
-    if len(gct) != 1 or len(sub) != 1:
-        raise Unsupported('content type constants')
+    import logging
+    logging.disable(logging.CRITICAL)
+    pr = Probe(repo)
+    table, abort_names = abort_facts(pr)
+    ex = exit_facts(pr)
+    from grpclib.const import Status
+    from grpclib.encoding.base import GRPC_CONTENT_TYPE
+    from grpclib.encoding.proto import ProtoCodec
+    # the response HEADERS of an accepted call carry the content type of the codec
+    obs = pr.run(BASE)
+    ct = header_dict(obs['frames'][0]).get('content-type')
+    if ct != GRPC_CONTENT_TYPE + '+' + ProtoCodec.__content_subtype__:
+        raise Unsupported('response content-type %r' % ct)
 
     def opt_z(v):
         return 'None' if v is None else 'Some %d' % v
 
     def opt_s(v):
         return 'None' if v is None else 'Some %s' % zs(v)
+
+    def pair(p):
+        return '(%d, %s)' % (p[0], opt_s(p[1]))
     L = []
-    L.append('(* GENERATED by tools/facts_C03.py from /repo/grpclib/server.py -- do not edit; rewritten on every run *)')
+    L.append('(* GENERATED by tools/facts_C03.py from the behaviour of /repo (%d probe calls) -- do not edit; '
+             'rewritten on every run *)' % pr.n)
     L.append('From Coq Require Import ZArith List.')
     L.append('Import ListNotations.')
     L.append('Open Scope Z_scope.')
     L.append('')
-    L.append('(* the guards of the validation prefix of request_handler *)')
+    L.append('(* the defects a request can be refused for *)')
     L.append('Inductive rguard :=')
-    L.append('| GetNe (k v : list Z)            (* headers_map.get(k) != v *)')
-    L.append('| IsNone (k : list Z)             (* headers_map.get(k) is None *)')
-    L.append("| CtMismatch                      (* base != GRPC_CONTENT_TYPE or (sub or 'proto') != codec subtype *)")
-    L.append("| UnknownPath                     (* mapping.get(headers_map.get(':path')) is None *)")
+    L.append('| GetNe (k v : list Z)            (* dict(headers).get(k) != v *)')
+    L.append('| IsNone (k : list Z)             (* dict(headers).get(k) is None *)')
+    L.append("| CtMismatch                      (* content-type present but not grpc / not the codec's subtype *)")
+    L.append('| UnknownPath                     (* :path absent or not a key of the mapping *)')
     L.append('| TryValueError (f : list Z).     (* f(headers) raises ValueError *)')
     L.append('')
-    L.append('(* request_handler: (guard, :status, grpc-status, grpc-message) of every early abort, in source order *)')
+    L.append('(* (defect, :status, grpc-status, grpc-message) of every early refusal, in order of precedence *)')
     L.append('Definition abort_table : list (rguard * Z * option Z * option (list Z)) := [')
-    rows = ['  (%s, %d, %s, %s)' % (g, h, opt_z(gs), opt_s(m)) for g, (h, gs, m) in entries]
-    cmts = ['   (* %s *)' % re.sub(r'[^A-Za-z0-9 :_./-]', ' ', str(m)) for g, (h, gs, m) in entries]
-    L.append('\n'.join(r + (';' if i + 1 < len(rows) else '') + c
-                       for i, (r, c) in enumerate(zip(rows, cmts))))
+    rows = ['  (%s, %d, %s, %s)' % (g, h, opt_z(gs), opt_s(m)) for g, h, gs, m in table]
+    L.append(';\n'.join(rows))
     L.append('].')
-    L.append('(* _abort emits these header names, END_STREAM, then RST_STREAM when the stream is still closable *)')
+    L.append('(* a refusal is HEADERS with these names + END_STREAM, then RST_STREAM while the client side is open *)')
     L.append('Definition abort_header_names : list (list Z) := [%s].' % '; '.join(zs(n) for n in abort_names))
     L.append('')
-    L.append('(* Stream.__aexit__: (status, message) for an Exception that is not a GRPCError, for a unary reply')
-    L.append('   without a message, and for the normal exit; any other BaseException is propagated (return None) *)')
-    L.append('Definition aexit_exception : Z * option (list Z) := (%d, %s).' % (exc[0], opt_s(exc[1])))
-    L.append('Definition aexit_unary_missing : Z * option (list Z) := (%d, %s).' % (unary[0], opt_s(unary[1])))
-    L.append('Definition aexit_normal : Z * option (list Z) := (%d, %s).' % (ok[0], opt_s(ok[1])))
-    L.append('(* the GRPCError branch of __aexit__ excludes `status is OK and unary reply and no message sent`;')
-    L.append('   such an error is handled by the Exception branch *)')
-    L.append('Definition aexit_grpc_ok_unary_as_exception : bool := true.')
-    L.append('(* request_handler, except asyncio.TimeoutError: status raised when cancel_failed / when cancelled *)')
-    L.append('Definition deadline_status_failed : Z := %d.' % dl_failed)
-    L.append('Definition deadline_status_cancelled : Z := %d.' % dl_cancelled)
+    L.append('(* at exit from the handler: (status, message) for an Exception that is not a GRPCError, for a unary reply')
+    L.append('   without a message, and for the normal return *)')
+    L.append('Definition aexit_exception : Z * option (list Z) := %s.' % pair(ex['exception']))
+    L.append('Definition aexit_unary_missing : Z * option (list Z) := %s.' % pair(ex['unary']))
+    L.append('Definition aexit_normal : Z * option (list Z) := %s.' % pair(ex['normal']))
+    L.append('(* GRPCError(Status.OK) on a unary reply without a message is handled as any other exception *)')
+    L.append('Definition aexit_grpc_ok_unary_as_exception : bool := %s.'
+             % ('true' if ex['grpc_ok_unary_as_exception'] else 'false'))
+    L.append('(* a BaseException that is not an Exception is propagated and nothing is sent (D4) *)')
+    L.append('Definition aexit_base_propagates : bool := %s.' % ('true' if ex['base_propagates'] else 'false'))
+    L.append('(* status sent when the deadline fired: cancellation swallowed by the handler / honoured *)')
+    L.append('Definition deadline_status_failed : Z := %d.' % ex['deadline_failed'][0])
+    L.append('Definition deadline_status_cancelled : Z := %d.' % ex['deadline_cancelled'][0])
     L.append('')
-    L.append('(* `if c: raise ProtocolError` checks of the sending calls, in order, as source text *)')
-    L.append('Definition api_checks : list (list Z * list (list Z)) := [')
-    L.append(';\n'.join('  (%s, [%s])' % (zs(n), '; '.join(zs(c) for c in cs)) for n, cs in checks))
-    L.append('].')
-    L.append('')
-    L.append('Definition grpc_content_type : list Z := %s.   (* %r *)' % (zs(gct[0]), gct[0]))
-    L.append('Definition proto_subtype : list Z := %s.   (* %r *)' % (zs(sub[0]), sub[0]))
-    L.append('Definition status_ok : Z := %d.' % status['OK'])
+    L.append('Definition grpc_content_type : list Z := %s.' % zs(GRPC_CONTENT_TYPE))
+    L.append('Definition proto_subtype : list Z := %s.' % zs(ProtoCodec.__content_subtype__))
+    L.append('Definition status_ok : Z := %d.' % Status.OK.value)
     return '\n'.join(L) + '\n'
 
 
 if __name__ == '__main__':
-    import os
-    import sys
     sys.stdout.write(generate(os.environ.get('VERIF_REPO', '/repo')))
